@@ -78,10 +78,12 @@ pub fn migrate(from: &Path, mut to: Options, overwrite: bool, force_migrate: &[u
 		log::info!("Migrating col {}", c);
 		source.iter_column_index_while(
 			c,
-			|IterState { item_index: index, key, rc, mut value, .. }| {
+			|IterState { item_index: index, key, rc, value, .. }| {
 				//TODO: more efficient ref migration
 				for _ in 0..rc {
-					let value = std::mem::take(&mut value);
+					// Every one of the `rc` sets must carry the value: a destination that does
+					// not count references overwrites with the last one.
+					let value = value.clone();
 					commit
 						.indexed
 						.entry(c)
